@@ -182,6 +182,9 @@ pub enum FOp {
     EncSymSameState { seed: u64 },
     /// two public-key encryptions handed generators created from the same explicit seed
     EncPkSameState { seed: u64 },
+    /// a seeded ciphertext and a seeded public key expanded in this context and in a second,
+    /// independently built one ("expands identically on every machine")
+    ExpandAcross,
 }
 
 fn fop_json(o: &FOp) -> Value {
@@ -194,11 +197,15 @@ fn fop_json(o: &FOp) -> Value {
         FOp::EncSym { seeded, zero } => json!({"enc-sym-seeded": seeded, "zero": zero}),
         FOp::EncSymSameState { seed } => json!({"enc-sym-same-state": seed}),
         FOp::EncPkSameState { seed } => json!({"enc-pk-same-state": seed}),
+        FOp::ExpandAcross => json!("expand-across-contexts"),
     }
 }
 fn fop_from(v: &Value) -> Option<FOp> {
     if v.as_str() == Some("new-keygen") {
         return Some(FOp::NewKeygen);
+    }
+    if v.as_str() == Some("expand-across-contexts") {
+        return Some(FOp::ExpandAcross);
     }
     let o = v.as_object()?;
     if let Some(s) = o.get("pk") {
@@ -272,6 +279,8 @@ pub struct Produced {
     pub noise: Option<(u64, bool, u64)>,
     /// symmetric same-state pair: did both encryptions come out with identical c0?
     pub same_c0: Option<bool>,
+    /// seeded objects expanded in two independently built contexts: first difference, if any
+    pub expand_diff: Option<String>,
 }
 
 fn seed_words(c: &Ciphertext) -> Option<[u64; 8]> {
@@ -362,7 +371,7 @@ struct FShared {
 fn exec_fop(op: &FOp, sh: &FShared, rng: &mut Prng) -> Produced {
     let w = &sh.world;
     let ctx = &w.ctx;
-    let mut p = Produced { what: format!("{:?}", op), masks: vec![], seeds: vec![], secret: None, pair: None, noise: None, same_c0: None };
+    let mut p = Produced { what: format!("{:?}", op), masks: vec![], seeds: vec![], secret: None, pair: None, noise: None, same_c0: None, expand_diff: None };
     let ks = |k: &KSwitchKeys, p: &mut Produced| {
         for pk in k.data().iter().flatten() {
             p.masks.push(mask_hash(pk.as_ciphertext(), ctx));
@@ -426,6 +435,25 @@ fn exec_fop(op: &FOp, sh: &FShared, rng: &mut Prng) -> Produced {
                 let ph = phase(w, &e, &w.sk);
                 let (m, cons) = centred_stats(w, e.parms_id(), &ph, w.spec.scheme == BGV);
                 p.noise = Some((m, cons, 21));
+            }
+        }
+        FOp::ExpandAcross => {
+            let other = gen::build_context(&w.spec).expect("second context");
+            let c = w.encryptor.encrypt_symmetric_new(&w.random_plain(rng));
+            let k = w.keygen.create_public_key(true);
+            p.masks.push(mask_hash(&c, ctx));
+            p.masks.push(mask_hash(k.as_ciphertext(), ctx));
+            for (name, obj) in [("ciphertext", &c), ("public key", k.as_ciphertext())] {
+                if obj.contains_seed() {
+                    let a = obj.clone().expand_seed(ctx);
+                    let b = obj.clone().expand_seed(&other);
+                    if a.data() != b.data() {
+                        p.expand_diff = Some(format!("seeded {} expands differently in a second, independently built context", name));
+                    }
+                    if a.contains_seed() {
+                        p.expand_diff = Some(format!("seeded {} still carries the seed flag after expansion", name));
+                    }
+                }
             }
         }
         FOp::EncSymSameState { seed } => {
@@ -514,6 +542,9 @@ fn judge_fresh(all: &[(usize, usize, Produced)], scheme: &str) -> Vec<(String, S
                     }
                 }
             }
+        }
+        if let Some(d) = &p.expand_diff {
+            bad.push((format!("expansion/{}/differs-across-contexts", scheme), "differs-across-contexts".into(), d.clone()));
         }
         if p.same_c0 == Some(true) {
             bad.push((
@@ -606,7 +637,8 @@ fn gen_fscn(rng: &mut Prng, run_seed: u64, real_entropy: bool) -> Option<FScn> {
     let threads = (0..nthreads)
         .map(|_| {
             (0..rng.range(2, 8))
-                .map(|_| match rng.below(11) {
+                .map(|_| match rng.below(12) {
+                    11 => FOp::ExpandAcross,
                     0 => FOp::NewKeygen,
                     1 => FOp::Pk { seed: rng.coin() },
                     2 => FOp::Relin { seed: rng.coin() },
